@@ -25,7 +25,7 @@ ASSUMPTIONS = [
 
 def budgets(tier):
     if tier == "quick":
-        return {"examples": 450, "max_s": 80, "shrink_s": 20, "shards": 1}
+        return {"examples": 400, "max_s": 80, "shrink_s": 20, "shards": 1}
     return {"examples": 1200, "max_s": 700, "shrink_s": 90, "shards": 16}
 
 
@@ -162,6 +162,10 @@ def check_case(case):
 
     sc = case["screen"]
     tm, sm = S.space_mappings(sc["ns"], sc["nt"])
+    total_ = sum(len(ch_) for ch_ in case["chains"])
+    if case["cli"] and case["order_seed"] % 2 == 0 and total_ <= 60:
+        # as many experiments as posterior samples in all chains together: the prediction matrix is square
+        sc = dict(sc, rows=[sc["rows"][i_ % len(sc["rows"])] for i_ in range(total_)])
     screen = S.build_screen(dict(sc, observed=sorted({r["p"] for r in sc["rows"]})), treatment_mapping=tm, sample_mapping=sm)
     chains = case["chains"]
     if case["kind"] == "interaction" and case["order_seed"] % 3 != 0:
@@ -223,7 +227,7 @@ def check_case(case):
                 out = tmp.fresh("evaluation.h5", odd=(case["order_seed"] // 7) if case["order_seed"] % 2 else None)
                 paths += [sfile, out]
                 screen.save_h5(sfile)
-                run_cli("evaluate_model", ["--screen", sfile, "--thetas"] + [files[i] for i in order] + ["--output", out])
+                run_cli("evaluate_model", ["--screen", sfile, "--thetas"] + [files[i] for i in order] + ["--output", out], verbose=case["order_seed"] % 4 == 1)
                 me = ModelEvaluation.load_h5(out)
                 preds = np.asarray(me.predictions, dtype=float)
                 require(preds.shape == (screen.size, len(flat)), "evaluate.shape", lambda: "predictions shape %r, expected %r" % (preds.shape, (screen.size, len(flat))))
